@@ -5,6 +5,7 @@ import RTA.Lemmas.TightNP
 import RTA.Lemmas.Realisable
 import RTA.Lemmas.TightExists
 import RTA.Lemmas.TightExistsFP
+import RTA.Lemmas.TightExistsNP
 /-! # C18 — fully preemptive FP, non-preemptive FP and FIFO bounds are attained
 
 Proved here: the FIFO part, at full generality for task sets whose arrival curves are
@@ -68,6 +69,23 @@ theorem fp_preemptive_bound_is_attained_by_some_schedule (ts : List (ℕ × ℕ 
       Compliant s (sporadicSet (ts.take (i + 1))) ∧
       ∃ j, j < s.n ∧ s.task j = i ∧ MeetsBound s j R ∧ ∀ R', R' < R → ¬ MeetsBound s j R' :=
   fp_preemptive_tight_sporadic ts i hi hwf limit R hR hRpos
+
+/-- C18 for fully non-preemptive FP in its existential form (blocking bound `B`): the job set
+consists of the tasks `0 … i` at their critical instant plus, if `B > 0`, one lower-priority
+job of cost `B + 1` released one slot earlier; there is a legal non-preemptive FP schedule of
+it in which some job of task `i` has a response time exactly equal to the returned bound -/
+theorem fp_nonpreemptive_bound_is_attained_by_some_schedule (ts : List (ℕ × ℕ × ℕ)) (i : ℕ)
+    (hi : i < ts.length) (B : ℕ) (hwf : ∀ p ∈ ts, 1 ≤ p.1 ∧ 1 ≤ p.2.2) (limit R : ℕ)
+    (hR : fpNonpreemptive (.sporadic (ts.getD i default).1 (ts.getD i default).2.1) (ts.getD i default).2.2 B
+      ((ts.take i).map fun p => RB.rbf (.sporadic p.1 p.2.1) (.scalar p.2.2)) limit = .ok R)
+    (hRpos : 0 < R) :
+    ∃ s : Sys, JlfpLegal s (hepFP s id) ∧
+      (∀ l, l < s.n → ∀ x, 1 ≤ x → x < s.cost l → s.np l x) ∧
+      (∀ k, k ≤ i → TaskCompliant s k (.sporadic (ts.getD k default).1 (ts.getD k default).2.1)
+          (.scalar (ts.getD k default).2.2)) ∧
+      (∀ l, l < s.n → i < s.task l → s.cost l ≤ B + 1) ∧
+      ∃ j, j < s.n ∧ s.task j = i ∧ MeetsBound s j R ∧ ∀ R', R' < R → ¬ MeetsBound s j R' :=
+  fp_nonpreemptive_tight_sporadic ts i hi B hwf limit R hR hRpos
 
 /-- sporadic tasks with release jitter are realisable: the critical-instant sequence aligned
 at any `t₀ ≥ J` is admissible and has exactly `number_arrivals(Δ)` releases in `[t₀, t₀ + Δ)` -/
